@@ -129,6 +129,58 @@ def run(ch, build):
         for c in pool:
             scn["steps"].append({"op": "cmd", "conn": "sessionless", "cmd": c, "script": ["ok"]})
         scns.append(scn)
+    # ... and after replies that answer ANOTHER operation were received (the previous command's reply, duplicated): the
+    # requests that follow - of the same and of every other operation - are still the table's
+    for k in range(4 if ch.quick() else 30):
+        pool = hist.command_pool(rng, False)
+        scn = {"bmc": conn.default_bmc(seed=rng.randrange(1000), loose=True), "timeout_ms": 40, "steps": []}
+        for rnd in range(2):
+            for j, c in enumerate(pool):
+                scn["steps"].append({"op": "cmd", "conn": "sessionless", "cmd": c, "ctx_ms": 400,
+                                     "script": ["dupstep", "ok"] if (j and rnd == 0 and (j + k) % 2 == 0) else ["ok"]})
+        scns.append(scn)
+    # the same inside a session: what the BMC reads after decryption is the table's operation and the caller's body
+    sscns = []
+    for k in range(3 if ch.quick() else 18):
+        su = hist.SUITES[k % 9]
+        pool = [c for c in hist.command_pool(rng, True) if c["name"] not in ("setpriv", "chassiscontrol", "closesession")]
+        steps = [hs.open_step(suites=[su])]
+        for rnd in range(2):
+            for j, c in enumerate(pool):
+                steps.append({"op": "cmd", "conn": "session", "cmd": c, "ctx_ms": 400,
+                              "script": ["dupstep", "ok"] if (j and rnd == 0 and (j + k) % 2 == 0) else ["ok"]})
+        sscns.append({"bmc": conn.default_bmc(seed=500 + k, suites=[[100, su[0], su[1], su[2]]]), "timeout_ms": 40, "steps": steps})
+    souts = conn.run_scenarios(sscns)
+    sb, sbi = [], []
+    for scn, out in zip(sscns, souts):
+        for st, res in list(zip(scn["steps"], out["steps"]))[1:]:
+            fn, body, ent, cmd = conn.cmd_op(st["cmd"])
+            name = st["cmd"]["name"]
+            desc = {"kind": "c06-session-after-stray", "cmd": name}
+            ch.note_case("c06-session-after-stray", "%s|%s" % (st["cmd"], st["script"]))
+            if res.get("panic"):
+                ch.violation(dict(desc, kind="panic"), {"scenario": scn, "panic": res["panic"]}); continue
+            if not res["bmc"]:
+                ch.violation(desc, {"scenario": scn, "what": "nothing was transmitted"}); continue
+            for e in res["bmc"]:
+                got = (e["kind"], e["accepted"], e["rsaddr"], e["netfn"], e["lun"], e["rqaddr"], e["cmd"])
+                want = ("ipmi-session", True, 0x20, fn, conn.cmd_lun(st["cmd"]), 0x81, cmd)
+                if got != want:
+                    ch.violation(desc, {"scenario": scn, "event": e, "what": "(kind, accepted, rsAddr, netFn, rsLUN, rqAddr, cmd) %s != %s" % (got, want)})
+                    continue
+                data = e["data"]
+                if body and e["body"] != body:
+                    ch.violation(desc, {"scenario": scn, "event": e, "what": "body code"}); continue
+                sb.append("specbody %s %s" % ("none" if name in conn.NOBODY else name, data or "-")); sbi.append((scn, st, e))
+                sb.append("showreq %s" % conn.cmd_reqspec(st["cmd"])); sbi.append(None)
+    so = core.oracle(sb)
+    for k in range(0, len(so), 2):
+        scn, st, e = sbi[k]
+        want, wf = so[k + 1].rsplit(" wf=", 1)
+        if wf == "true" and so[k] != "ok " + want:
+            ch.violation({"kind": "c06-session-after-stray", "cmd": st["cmd"]["name"]},
+                         {"scenario": scn, "what": "request data read by the BMC is not the caller's request", "spec_reads": so[k], "caller": want, "event": e})
+    hist.replay(ch, sscns, souts, (), "c06")
     outs = conn.run_scenarios(scns)
     dl, di = [], []
     for si, (scn, out) in enumerate(zip(scns, outs)):
